@@ -647,3 +647,67 @@ func c20OwnerEmptiness(c *Ctx) *RuleResult {
 }
 
 var _ = fmt.Sprintf
+
+// c07FreshHandleAccounted: a statistics handle obtained from the store is not leaked.
+func c07FreshHandleAccounted(c *Ctx) *RuleResult {
+	r := &RuleResult{Rule: "C07.fresh-handle", Floor: 1,
+		Doc: "statistics are eventually written: a handle obtained from the previous-execution-stats store (a successful Get) is, on every path, released or handed to the object that is returned (stored in a field of a returned composite literal); an error return after the Get that forgets the handle keeps its use count above zero for ever, so the statistics of every request sharing it are never written"}
+	p := c.P
+	for _, u := range p.UnitsIn(isccPkg) {
+		info := u.Info()
+		isGet := func(as *ast.AssignStmt) bool {
+			if len(as.Lhs) != 2 || len(as.Rhs) != 1 {
+				return false
+			}
+			call, ok := ast.Unparen(as.Rhs[0]).(*ast.CallExpr)
+			if !ok {
+				return false
+			}
+			tv, ok := info.Types[call]
+			if !ok {
+				return false
+			}
+			tup, ok := tv.Type.(*types.Tuple)
+			return ok && tup.Len() == 2 && (namedIs(tup.At(0).Type(), modPath+"/"+isccPkg, "PreviousExecutionStatsHandle") || namedIs(tup.At(0).Type(), modPath+"/pkg/blobstore", "MutableProtoHandle"))
+		}
+		spec := &OblSpec{Name: "fresh handle", Min: 1, Max: 1,
+			Create: func(n ast.Node) []Born {
+				if as, ok := n.(*ast.AssignStmt); ok && isGet(as) {
+					return []Born{{Key: exprStr(as.Lhs[0]), Pos: as.Pos(), FailTest: errNotNilTest(exprStr(as.Lhs[1]))}}
+				}
+				return nil
+			},
+			Discharge: func(n ast.Node, key string) int {
+				if _, ok := methodCallOn(n, key, "Release"); ok {
+					return 1
+				}
+				return 0
+			},
+			Transfer: func(n ast.Node, key string) bool {
+				if kv, ok := n.(*ast.KeyValueExpr); ok && exprStr(kv.Value) == key {
+					return true
+				}
+				if ret, ok := n.(*ast.ReturnStmt); ok {
+					for _, res := range ret.Results {
+						if exprStr(res) == key {
+							return true
+						}
+					}
+				}
+				return false
+			},
+		}
+		res := RunObligation(info, u.Decl.Body, spec)
+		if res.Created == 0 {
+			continue
+		}
+		construct := constructOf(u, "handle from Get")
+		if len(res.Violations) == 0 {
+			r.ok(construct, posOf(p, u.Decl), "released or handed to the returned object on every path")
+			continue
+		}
+		v := res.Violations[0]
+		r.bad(c.Prop, construct, p.Pos(v.Born.Pos), fmt.Sprintf("the handle obtained here is released/handed over %d times on the path to the %s: its use count never returns to zero and the statistics recorded through it are never written", v.Count, oblExitDesc(p, v)))
+	}
+	return r
+}
